@@ -216,6 +216,9 @@ def month_records(ctx):
     c05_solver(ctx)
     memo_transparent(ctx, full=False)
     memo_cells(ctx)
+    # the scenario calendars replace SolarTerm::from_index / new by a stand-in, so the real constructors' year / index arithmetic travels with the bundle
+    from rules import c06
+    c06.term_ctor_rules(ctx)
 
 
 def c05_solver(ctx):
